@@ -75,7 +75,12 @@ class C15(scen.WorldProp):
                 continue
             N = rng.choice([4, 6, 6, 8, 12])
             spec = {"type": "plainhunt", "stage": N, "start_row": None}
-            if rng.random() < 0.4:
+            if rng.random() < 0.25:
+                # the built-in methods take the start row too (Stedman Doubles has a constructor of its own)
+                ty = rng.choice(["stedman", "stedman", "grandsire"])
+                N = rng.choice([5, 5, 7] if ty == "stedman" else [5, 6, 7, 8])
+                spec = {"type": ty, "stage": N, "start_row": None}
+            if rng.random() < (0.4 if spec["type"] == "plainhunt" else 0.7):
                 bells = list(range(1, N + 1))
                 rng.shuffle(bells)
                 spec["start_row"] = "".join(gens.BELLS[b - 1] for b in bells)
